@@ -704,6 +704,11 @@ func (c *EvalCtx) evalCall(e *ECall) TV {
 		c.enc.nquant++
 		id := fmt.Sprint(c.enc.nquant)
 		perm, inv := q("perm$"+id), q("pinv$"+id)
+		// a name for the slice: its term may contain `ite`, which is not allowed in patterns
+		xn := q("parg$" + id)
+		c.enc.emit(fmt.Sprintf("(declare-const %s Slice)", xn))
+		c.enc.emit(fmt.Sprintf("(assert (= %s %s))", xn, x.Term))
+		x.Term = xn
 		c.enc.emit(fmt.Sprintf("(declare-fun %s (Int) Int)", perm))
 		c.enc.emit(fmt.Sprintf("(declare-fun %s (Int) Int)", inv))
 		nw, od := c.st.get(h), c.old.get(h)
